@@ -631,6 +631,12 @@ fn comings_and_goings_strategy(t: Tier) -> BoxedStrategy<Scenario> {
     prop_oneof![addstream_strategy(t), removal_strategy(t)].boxed()
 }
 
+/// the same, half of the cases preempting inside Clone / view closures: a consumer that a writer
+/// laps while it reads delivers a later value in place of an earlier one
+fn comings_and_goings_at_payload_strategy(t: Tier) -> BoxedStrategy<Scenario> {
+    at_payload_points(comings_and_goings_strategy(t))
+}
+
 fn c02_oracle(sc: &Scenario, ex: &Execution, info: &mut CaseInfo) -> Vec<Finding> {
     let (_wrap, overlap) = conc_common(sc, ex, info);
     let h = Hist::build(sc, ex);
@@ -1368,7 +1374,7 @@ pub fn registry() -> Vec<PropDef> {
                 },
                 Part {
                     name: "while_streams_come_and_go",
-                    source: Source::Random { strategy: comings_and_goings_strategy, cases: cases_fn!(3000, 60000) },
+                    source: Source::Random { strategy: comings_and_goings_at_payload_strategy, cases: cases_fn!(4000, 80000) },
                     oracle: c02_oracle,
                 },
             ],
